@@ -147,7 +147,7 @@ def _case(draw):
             if cands:
                 a = cands[draw(st.integers(0, len(cands) - 1))]
                 a[2] = True
-    return {'stages': stages, 'kinds': kinds}
+    return {'stages': stages, 'kinds': kinds, 'lowlevel': draw(st.integers(0, 2)) == 0}
 
 
 def strategy():
@@ -328,11 +328,15 @@ def run_case(case):
                 raise HarnessError(f'cannot parse generated stage: {e}\n{text}')
         src = '\nsources:\n' + '\n'.join(texts)
         vfrec.reset()
-        status, got = O.try_call(lambda: Config(b.build(), eval_ctx=EvalContext(eval_symbols={'note': vfrec.note})))
+        if case.get('lowlevel'):
+            # documented low-level route: evaluate the merged tree itself (no deep copy in between)
+            status, got = O.try_call(lambda: EvalContext(eval_symbols={'note': vfrec.note}).evaluate(b.build()))
+        else:
+            status, got = O.try_call(lambda: Config(b.build(), eval_ctx=EvalContext(eval_symbols={'note': vfrec.note})))
         log = list(vfrec.LOG)
     finally:
         shutil.rmtree(tmp, ignore_errors=True)
-    labels = {'stages=%d' % len(stages)}
+    labels = {'stages=%d' % len(stages), 'route=' + ('EvalContext.evaluate' if case.get('lowlevel') else 'Config')}
     any_taint = any(id_taint.values()) or any(marker_taint.values())
     if any_taint:
         labels.add('has-taint')
